@@ -16,24 +16,42 @@ def short_str16(s):
     return bytes([len(u) // 2, 1]) + u
 
 
-def workbook_stream(sheets, names, xtis, formulas_by_sheet):
-    """sheets: names; names: Latin-1 defined names; xtis: (sup, first, last) raw u16;
-    formulas_by_sheet[i] = sorted list of (row, col, cell_parsed_formula_bytes)"""
+def workbook_stream(sheets, names, xtis, formulas_by_sheet, lbls=None, split_extern=False):
+    """sheets: names; names: Latin-1 defined names (plain Lbl records) — or lbls: ready Lbl payloads
+    (tools/fmlagen.lbl_payload: any flags, 8/16-bit names, a formula) in record order;
+    xtis: (sup, first, last) raw u16; split_extern: two EXTERNSHEET records (calamine appends);
+    formulas_by_sheet[i] = sorted list of (row, col, cell_parsed_formula_bytes[, records that follow
+    the FORMULA record, e.g. SHRFMLA / ARRAY / a value cell]); an item (row, col, None, records)
+    writes only the raw records (value cells outside the formula area)"""
     bof_g = rec(0x0809, struct.pack("<HHHHII", 0x0600, 0x0005, 0x0DBB, 0x07CC, 0, 0x0306))
     cp = rec(0x0042, struct.pack("<H", 1200))
     supbook = rec(0x01AE, struct.pack("<HH", len(sheets), 0x0401))
-    extern = rec(0x0017, struct.pack("<H", len(xtis)) + b"".join(struct.pack("<HHH", *x) for x in xtis)) if xtis else b""
-    lbls = b""
-    for n in names:
-        nb = n.encode("latin-1")
-        lbls += rec(0x0018, struct.pack("<HBBHHH", 0, 0, len(nb), 0, 0, 0) + b"\0" * 4 + b"\0" + nb)
+    def ext(xs):
+        return rec(0x0017, struct.pack("<H", len(xs)) + b"".join(struct.pack("<HHH", *x) for x in xs))
+    if xtis and split_extern and len(xtis) > 1:
+        extern = ext(xtis[:len(xtis) // 2]) + ext(xtis[len(xtis) // 2:])
+    else:
+        extern = ext(xtis) if xtis else b""
+    if lbls is not None:
+        lbls = b"".join(rec(0x0018, p) for p in lbls)
+    else:
+        lbls = b""
+        for n in names:
+            nb = n.encode("latin-1")
+            lbls += rec(0x0018, struct.pack("<HBBHHH", 0, 0, len(nb), 0, 0, 0) + b"\0" * 4 + b"\0" + nb)
     eof = rec(0x000A, b"")
     subs = []
     for fl in formulas_by_sheet:
         bof_s = rec(0x0809, struct.pack("<HHHHII", 0x0600, 0x0010, 0x0DBB, 0x07CC, 0, 0x0306))
         body = b""
-        for (r, c, cpf) in fl:
+        for item in fl:
+            r, c, cpf = item[0], item[1], item[2]
+            if cpf is None:                 # no FORMULA record here: only the raw records (a value cell …)
+                body += item[3]
+                continue
             body += rec(0x0006, struct.pack("<HHH", r, c, 0) + struct.pack("<d", 0.0) + struct.pack("<HI", 0, 0) + cpf)
+            if len(item) > 3:
+                body += item[3]
         subs.append(bof_s + body + eof)
 
     def globals_with(positions):
